@@ -25,10 +25,12 @@ import (
 // Pt is a grid point. Its location is lon = X*1e-7, lat = Y*1e-7.
 type Pt struct{ X, Y int64 }
 
-// Lon is the longitude of the grid point (correctly rounded X/1e7).
+// Lon is the longitude of the grid point at the default resolution
+// (correctly rounded X/1e7); see Truth.Lon for truths with another Div.
 func (p Pt) Lon() float64 { return float64(p.X) / 1e7 }
 
-// Lat is the latitude of the grid point (correctly rounded Y/1e7).
+// Lat is the latitude of the grid point at the default resolution
+// (correctly rounded Y/1e7); see Truth.Lat.
 func (p Pt) Lat() float64 { return float64(p.Y) / 1e7 }
 
 // Ring is a cyclic vertex list WITHOUT a repeated closing point, stored in
@@ -47,7 +49,24 @@ type Polygon struct {
 type Truth struct {
 	Name     string
 	Polygons []Polygon
+	// Div is the number of grid units per degree: a grid point (X, Y) lies at
+	// lon = X/Div, lat = Y/Div. 0 means 1e7 (the resolution of OSM data);
+	// 1e9 gives locations with nine decimals.
+	Div float64
 }
+
+func (t Truth) div() float64 {
+	if t.Div == 0 {
+		return 1e7
+	}
+	return t.Div
+}
+
+// Lon is the longitude of grid point p of this truth (correctly rounded X/Div).
+func (t Truth) Lon(p Pt) float64 { return float64(p.X) / t.div() }
+
+// Lat is the latitude of grid point p of this truth (correctly rounded Y/Div).
+func (t Truth) Lat(p Pt) float64 { return float64(p.Y) / t.div() }
 
 // RingRef identifies ring number i of a truth. Rings are numbered polygon by
 // polygon: outer first, then its holes.
@@ -108,11 +127,18 @@ func sign(v int64) int {
 
 // Area2 is twice the signed area of the cyclic vertex list (shoelace
 // formula): positive for counter-clockwise, negative for clockwise.
+//
+// The sum is taken relative to the first vertex (the area does not depend on
+// the origin), so that rings far from the origin stay far below 2^63.
 func Area2(r []Pt) int64 {
 	var a int64
+	if len(r) == 0 {
+		return 0
+	}
+	o := r[0]
 	for i := range r {
 		j := (i + 1) % len(r)
-		a += r[i].X*r[j].Y - r[j].X*r[i].Y
+		a += (r[i].X-o.X)*(r[j].Y-o.Y) - (r[j].X-o.X)*(r[i].Y-o.Y)
 	}
 	return a
 }
@@ -256,6 +282,8 @@ func (t Truth) Validate() error {
 		return fmt.Errorf("%s: no polygon", t.Name)
 	}
 	seen := map[Pt]bool{}
+	var lo, hi Pt
+	first := true
 	for ri, r := range t.Rings() {
 		if err := simple(r); err != nil {
 			return fmt.Errorf("%s: ring %d: %v", t.Name, ri, err)
@@ -268,9 +296,32 @@ func (t Truth) Validate() error {
 				return fmt.Errorf("%s: vertex %v used twice", t.Name, p)
 			}
 			seen[p] = true
-			if p.X < -1000 || p.X > 1000 || p.Y < -1000 || p.Y > 1000 {
-				return fmt.Errorf("%s: vertex %v not a small integer", t.Name, p)
+			// a valid location: |lon| <= 180, |lat| <= 90
+			if lon, lat := t.Lon(p), t.Lat(p); lon < -180 || lon > 180 || lat < -90 || lat > 90 {
+				return fmt.Errorf("%s: vertex %v is no location", t.Name, p)
 			}
+			if first {
+				lo, hi, first = p, p, false
+			}
+			lo = Pt{min64(lo.X, p.X), min64(lo.Y, p.Y)}
+			hi = Pt{max64(hi.X, p.X), max64(hi.Y, p.Y)}
+		}
+	}
+	// all cross products are taken on coordinate differences: with an extent
+	// below 2^30 they and their sums stay below 2^62
+	if hi.X-lo.X >= 1<<30 || hi.Y-lo.Y >= 1<<30 {
+		return fmt.Errorf("%s: extent %v..%v too large for exact int64 geometry", t.Name, lo, hi)
+	}
+	// two vertices never share a float64 location (they are distinct grid
+	// points; this guards Div and the magnitude of the coordinates)
+	locs := map[[2]float64]Pt{}
+	for _, r := range t.Rings() {
+		for _, p := range r {
+			k := [2]float64{t.Lon(p), t.Lat(p)}
+			if q, dup := locs[k]; dup {
+				return fmt.Errorf("%s: vertices %v and %v share the location %v", t.Name, q, p, k)
+			}
+			locs[k] = p
 		}
 	}
 	for i, p := range t.Polygons {
@@ -321,11 +372,47 @@ func (r Ring) Reversed() Ring {
 	return out
 }
 
+// Shifted returns the ring moved by (dx, dy) grid units.
+func (r Ring) Shifted(dx, dy int64) Ring {
+	out := make(Ring, len(r))
+	for i, p := range r {
+		out[i] = Pt{p.X + dx, p.Y + dy}
+	}
+	return out
+}
+
+// Mapped returns the truth with f applied to every vertex, under a new name.
+// (A reflection turns every stored winding round; Validate decides whether
+// the result is still a ground truth.)
+func (t Truth) Mapped(name string, f func(Pt) Pt) Truth {
+	out := Truth{Name: name, Div: t.Div}
+	mapRing := func(r Ring) Ring {
+		m := make(Ring, len(r))
+		for i, p := range r {
+			m[i] = f(p)
+		}
+		return m
+	}
+	for _, p := range t.Polygons {
+		q := Polygon{Outer: mapRing(p.Outer)}
+		for _, h := range p.Holes {
+			q.Holes = append(q.Holes, mapRing(h))
+		}
+		out.Polygons = append(out.Polygons, q)
+	}
+	return out
+}
+
 // Catalogue returns the ground truths used by C16, all validated (the
 // function panics if one of them is outside the domain). Families:
 //
 //	G1 one outer; G2 one outer + one hole; G3 one outer + two holes;
-//	G4 two outers; G5 two outers with a hole in each.
+//	G4 two outers; G5 two outers with a hole in each; G6 U shapes;
+//	G7 three outers; G8 one outer with three holes; G9 rings one grid unit
+//	apart; G10 vertices level with (sharing a lat or a lon with) vertices of
+//	other rings; G11 runs of collinear vertices; G12 slivers and ordinary
+//	shapes far from the origin (all four sign quadrants, near +-180/+-90),
+//	outers half a world apart; G13 locations with nine decimals.
 //
 // Rings have 3 to 5 vertices (G6: 8-vertex U shapes), are stored in both windings across the
 // catalogue, straddle the axes (vertices with lon == 0 or lat == 0 but never
@@ -380,6 +467,99 @@ func Catalogue() []Truth {
 			{Outer: far, Holes: []Ring{farHole.Reversed()}}}},
 		{Name: "G4-notch-dart", Polygons: []Polygon{{Outer: notchCW}, {Outer: dart}}},
 	}
+	// ---- boundary audit: shapes the families above lack -----------------
+
+	// G7: three outers (the hole of the middle one has to find its outer
+	// among three candidates, whatever the order in which they were joined)
+	low := ring(-20, -20, -10, -21, -9, -12, -19, -10) // CCW quad, all coordinates negative
+	lowHole := ring(-17, -18, -12, -18, -14, -14)      // CCW triangle (against the required winding)
+	ts = append(ts,
+		Truth{Name: "G7-three", Polygons: []Polygon{{Outer: tri}, {Outer: far.Reversed()}, {Outer: low}}},
+		Truth{Name: "G7-three-holes", Polygons: []Polygon{
+			{Outer: low.Reversed(), Holes: []Ring{lowHole}},
+			{Outer: tri, Holes: []Ring{holeD}},
+			{Outer: far, Holes: []Ring{farHole.Reversed()}}}},
+	)
+
+	// G8: one outer with three holes
+	holeE := ring(1, -4, 5, -5, 4, -2) // CCW triangle, lower right of quad
+	ts = append(ts, Truth{Name: "G8-quad-3holes", Polygons: []Polygon{
+		{Outer: quad, Holes: []Ring{holeC, holeB.Reversed(), holeE}}}})
+
+	// G9: nothing touches, but everything is one grid unit away from
+	// something: hole s1 from the left and bottom edges of its outer, hole s2
+	// from the right and bottom edges and (diagonally) from s1, the second
+	// outer from the first; the second outer's corners are level with hole
+	// vertices and its horizontal edges collinear with hole edges
+	snug := ring(1, 1, 21, 1, 21, 21, 1, 21)    // CCW
+	s1 := ring(2, 2, 2, 10, 10, 2)              // CW
+	s2 := ring(11, 2, 20, 2, 20, 20, 3, 11)     // CCW (against the required winding)
+	snug2 := ring(22, 2, 30, 2, 30, 20, 22, 20) // CCW
+	ts = append(ts, Truth{Name: "G9-snug", Polygons: []Polygon{
+		{Outer: snug.Reversed(), Holes: []Ring{s1, s2}}, {Outer: snug2}}})
+
+	// G10: ray-casting corner cases. The hexagonal hole of the middle square
+	// has its vertices at lat -6, 0 and +6; at those lats the diamond on the
+	// right has its bottom vertex (a local minimum), its leftmost and
+	// rightmost vertices (the boundary passes through the level) and its top
+	// vertex (a local maximum), and the rectangle on the left has its
+	// horizontal edges and corners. -mx is the mirror image (diamond left,
+	// rectangle right), -t the transposed arrangement (vertices share lons).
+	mid := ring(-10, -10, 10, -10, 10, 10, -10, 10)      // CCW
+	hex := ring(-5, -6, -6, 0, -5, 6, 5, 6, 6, 0, 5, -6) // CW
+	diamond := ring(20, 0, 26, -6, 32, 0, 26, 6)         // CCW
+	rect := ring(-30, -6, -20, -6, -20, 6, -30, 6)       // CCW
+	level := Truth{Name: "G10-level", Polygons: []Polygon{
+		{Outer: rect.Reversed()}, {Outer: mid, Holes: []Ring{hex}}, {Outer: diamond}}}
+	ts = append(ts, level,
+		level.Mapped("G10-level-mx", func(p Pt) Pt { return Pt{-p.X, p.Y} }),
+		level.Mapped("G10-level-t", func(p Pt) Pt { return Pt{p.Y, p.X} }))
+	// every vertex of the hole is level with a vertex of its own outer (the
+	// octagon's side vertices at lat -3 and +3): with the outer in pieces the
+	// containment test has only degenerate rays to go by
+	oct := ring(-10, -8, 10, -8, 12, -3, 12, 3, 10, 8, -10, 8, -12, 3, -12, -3) // CCW
+	octHole := ring(-4, -3, -4, 3, 4, 3, 4, -3)                                 // CW
+	ownLevel := Truth{Name: "G10-own-level", Polygons: []Polygon{{Outer: oct, Holes: []Ring{octHole}}}}
+	ts = append(ts, ownLevel,
+		ownLevel.Mapped("G10-own-level-t", func(p Pt) Pt { return Pt{p.Y, p.X} }))
+
+	// G11: runs of collinear vertices - horizontal (four in a row, the ring's
+	// first vertex among them), vertical, and diagonal on the hole
+	runs := ring(0, -10, 5, -10, 10, -10, 10, 0, 10, 10, -10, 10, -10, -10) // CCW
+	runHole := ring(-6, -5, -2, -1, 2, 3, -6, 3)                            // CCW (against the required winding)
+	ts = append(ts, Truth{Name: "G11-runs", Polygons: []Polygon{{Outer: runs.Reversed(), Holes: []Ring{runHole}}}})
+
+	// G12: far from the origin. A sliver 700 x 1 grid units next to a quad
+	// with a sliver hole, just inside lon +180 / lat -90 (twice the area of
+	// the sliver is 7e-12 square degrees, while the products lon*lat are near
+	// 16000: an area sum that is not taken relative to a vertex of the ring
+	// has lost it to rounding); the familiar G5 shapes in the other three
+	// sign quadrants; two outers a hundred degrees apart.
+	const fx, fy = 1799990001, -899990003
+	sliver := ring(0, 0, 700, 1, 700, 2).Shifted(fx, fy)            // CCW
+	farQuad := ring(0, 10, 800, 10, 800, 40, 0, 40).Shifted(fx, fy) // CCW
+	sliverHole := ring(100, 20, 600, 22, 600, 21).Shifted(fx, fy)   // CW
+	ts = append(ts, Truth{Name: "G12-far-sliver", Polygons: []Polygon{
+		{Outer: sliver.Reversed()}, {Outer: farQuad, Holes: []Ring{sliverHole}}}})
+	g5 := Truth{Polygons: []Polygon{
+		{Outer: quad, Holes: []Ring{holeA}},
+		{Outer: far.Reversed(), Holes: []Ring{farHole.Reversed()}}}}
+	shift := func(dx, dy int64) func(Pt) Pt { return func(p Pt) Pt { return Pt{p.X + dx, p.Y + dy} } }
+	ts = append(ts,
+		g5.Mapped("G12-far-nw", shift(-1799999900, 899999900)),
+		g5.Mapped("G12-far-sw", shift(-1234567891, -456789123)),
+		g5.Mapped("G12-far-ne", shift(134050123, 525200456)),
+		Truth{Name: "G12-apart", Polygons: []Polygon{
+			{Outer: tri.Shifted(-500000000, 300000000), Holes: []Ring{holeD.Shifted(-500000000, 300000000)}},
+			{Outer: far.Reversed().Shifted(500000000, -300000000), Holes: []Ring{farHole.Shifted(500000000, -300000000)}}}},
+	)
+
+	// G13: nine decimals (grid unit 1e-9 degrees): neighbouring vertices
+	// differ only from the eighth decimal on
+	g13 := g5.Mapped("G13-decimals", shift(-73123456789, 45987654321))
+	g13.Div = 1e9
+	ts = append(ts, g13)
+
 	for _, t := range ts {
 		if err := t.Validate(); err != nil {
 			panic("polycut: catalogue entry outside the domain: " + err.Error())
